@@ -237,10 +237,13 @@ func (b *expandBody) expandChild(child hcl.Body, i *iteration) hcl.Body {
 }
 
 func (b *expandBody) JustAttributes() (hcl.Attributes, hcl.Diagnostics) {
-    // blocks aren't allowed in JustAttributes mode and this body can
-    // only produce blocks, so we'll just pass straight through to our
-    // underlying body here.
-    return b.original.JustAttributes()
+    // blocks aren't allowed in JustAttributes mode, so there is nothing to
+    // expand here, but the attributes need the same treatment as in Content
+    // and PartialContent: those consumed by an earlier PartialContent call
+    // are not part of this body any more, and inside a generated block the
+    // expressions must be able to refer to the iterators.
+    attrs, diags := b.original.JustAttributes()
+    return b.prepareAttributes(attrs), diags
 }
 
 func (b *expandBody) MissingItemRange() hcl.Range {
